@@ -28,6 +28,17 @@ Definition sx_filtered_cif (opts : Z) (d : cdoc) : sx :=
             ++ [sx_of_pdb sx_of_atom models])%list).
 
 Definition sx_fmt (f : fmt) : sx := SY (match f with FPdb => "pdb" | FCif => "cif" end).
+Definition model_of_row (r : crow) : Z := match w_model r with Some n => n | None => 1%Z end.
+(* every model number forms one run in the list of rows *)
+Fixpoint models_grouped (ms : list Z) (closed : list Z) : bool :=
+  match ms with
+  | [] => true
+  | m :: r => match r with
+              | m' :: _ => if Z.eqb m m' then models_grouped r closed
+                           else if existsb (Z.eqb m') (m :: closed) then false else models_grouped r (m :: closed)
+              | [] => true
+              end
+  end.
 Definition run_c15 (x : sx) : sx :=
   match x with
   | SL [SY "readpdb"; SZ opts; SZ level; SS input] => run_c01 (SL [SY "read"; SZ opts; SZ level; SS input])
@@ -50,6 +61,14 @@ Definition run_c15 (x : sx) : sx :=
   | SL [SY "save"; SS path] => match save_format path with Some f => sx_fmt f | None => SY "none" end
   | SL [SY "savegz"; SS path] => match save_gz_format path with Some f => sx_fmt f | None => SY "none" end
   | SL (SY "missing" :: _) => SY "error"
+  (* the recorded finding: with only_first_model the mmCIF reader stops at the first row of another model, so rows of the first
+     model that come after such a row are lost (the rows of the models are not grouped) *)
+  | SL [SY "classify"; SL [SY "ciffilter"; SZ opts; doc]] =>
+      match cdoc_of_sx doc with
+      | Some d => if (Z.testbit opts 1 && negb (models_grouped (map model_of_row (d_rows d)) []))%bool
+                  then SY "Known_first_model_rows_not_contiguous" else SY "none"
+      | None => SY "none"
+      end
   | SL (SY "classify" :: _) => SY "none"
   | _ => SY "bad-input"
   end.
